@@ -218,13 +218,25 @@ let tick what =
 (* above this many changes the quadratic oracles are replaced by the fast ones *)
 let large = 4000
 
+exception Skip
+
 let () =
-  iter_cases (fun id c ->
+  iter_cases (fun id c -> try
     tick "parse";
     let thr = z_of_int (int_of_sx (List.hd (args (field "thr" c)))) in
     let timeout = float_of_string (atom (List.hd (args (field "timeout" c)))) in
     let kind = atom (List.hd (args (field "kind" c))) in
     let obs = field "obs" c in
+    (* the supervisor of the harness records a case whose run killed the child process (a panic inside a matcher
+       goroutine cannot be recovered by the caller of Consume) or never returned: nothing else was observed *)
+    (match atom (List.hd (args (field "res" obs))) with
+     | "crash" -> count "res_crash";
+         propfail id "Consume did not return a re-pairing: the process died (a panic inside Consume or one of its matcher goroutines; replaying this input crashes the harness child again)";
+         raise Skip
+     | "hang" -> count "res_hang";
+         propfail id "Consume did not return (deadlock or livelock): the run was killed by the watchdog of the harness";
+         raise Skip
+     | _ -> ());
     let sizes = Array.of_list (ints_of_sx (L (args (field "sizes" obs)))) in
     (* blobs: hash and size; the same hash twice means the same cache entry (first wins) *)
     let blob_of_hash : (string, int) Hashtbl.t = Hashtbl.create 16 in
@@ -248,8 +260,13 @@ let () =
     let close_tab : (int * int, bool * bool) Hashtbl.t = Hashtbl.create 64 in
     List.iter (fun p -> match list_of_sx p with
       | [bd; ba; x; y] ->
-          if atom x = "err" then failwith "blobsAreClose returned an error";
-          Hashtbl.replace close_tab (int_of_sx bd, int_of_sx ba) (bool_of_sx x, bool_of_sx y);
+          if atom x = "err" || atom y = "err" then failwith "blobsAreClose returned an error";
+          (* a panic of the direct call: the model has no such answer (blobs_close is a total predicate) *)
+          let ans what v = if atom v = "panic" then begin
+              mismatch id (Printf.sprintf "blobsAreClose(%s) panicked in a direct call on blobs %d and %d (sizes %d, %d)" what
+                             (int_of_sx bd) (int_of_sx ba) sizes.(int_of_sx bd) sizes.(int_of_sx ba)); false end
+            else bool_of_sx v in
+          Hashtbl.replace close_tab (int_of_sx bd, int_of_sx ba) (ans "deleted, added" x, ans "added, deleted" y);
           (* fine correspondence of sizesAreClose: the harness lists only pairs the real function accepts *)
           let s1 = z_of_int sizes.(int_of_sx bd) and s2 = z_of_int sizes.(int_of_sx ba) in
           let t = effective_threshold thr in
@@ -463,5 +480,7 @@ let () =
       end
     end;
     tick "correspondence";
-    ignore kind);
+    (match field_opt "warm" c with Some w when int_of_sx (List.hd (args w)) > 0 -> count "instance_reused" | _ -> ());
+    ignore kind
+    with Skip -> ());
   tick "end"
